@@ -401,11 +401,87 @@ func (f *Frame) dispatch(st *State, e *ast.CallExpr, fn *types.Func, recv *Term,
 		return rs
 	}
 	if fi != nil {
-		c.note("call not inlined (depth/recursion): " + shortFuncName(full))
+		c.note("call not inlined (depth/recursion): " + shortFuncName(full) + " - everything its body may write is forgotten")
+		f.forgetEffects(st, fi)
 	} else {
-		c.note("unmodelled call: " + full)
+		c.note("unmodelled call: " + full + " (results unknown; objects reachable only through pointer arguments are forgotten)")
+		f.forgetPointees(st, e, args, sig)
 	}
 	return f.havocResults(st, sig)
+}
+
+// forgetEffects: a call into consul code that is neither inlined nor under contract - every heap array the callee's
+// body may write (by effect discovery; all known arrays when that fails) becomes unknown.
+func (f *Frame) forgetEffects(st *State, fi *FuncInfo) {
+	c := f.c
+	eff := map[string]bool{}
+	unknown := false
+	for k := range f.calleeEffects(fi) {
+		if strings.HasPrefix(k, "?") {
+			unknown = true
+		} else {
+			eff[k] = true
+		}
+	}
+	if unknown {
+		for h := range c.heapSort {
+			eff[h] = true
+		}
+		globalHeapSorts.Range(func(k, _ interface{}) bool {
+			eff[k.(string)] = true
+			return true
+		})
+	}
+	for _, h := range sortedKeys(eff) {
+		hs, ok := c.heapSortOf(h)
+		if !ok {
+			if c.discovery > 0 {
+				if c.extraEffects == nil {
+					c.extraEffects = map[string]bool{}
+				}
+				c.extraEffects[h] = true
+				continue
+			}
+			panic(unsupported{"call to " + fi.Fn.Name() + " writes heap " + h + " whose sort is unknown in this context"})
+		}
+		old := c.heapGet(st, h, hs)
+		nw := c.fresh("hv!"+h, hs)
+		if h == "ALLOC" {
+			r := c.bvar("r", SInt)
+			c.assume(st, Forall([]*Term{r}, Implies(Select(old, r), Select(nw, r)), Select(nw, r)))
+		}
+		st.heap[h] = nw
+	}
+}
+
+// forgetPointees: an external function may write through the pointers it is given.
+func (f *Frame) forgetPointees(st *State, e *ast.CallExpr, args []*Term, sig *types.Signature) {
+	c := f.c
+	for i, a := range args {
+		if i >= sig.Params().Len() || (sig.Variadic() && i >= sig.Params().Len()-1) {
+			break
+		}
+		pt, ok := types.Unalias(sig.Params().At(i).Type()).Underlying().(*types.Pointer)
+		if !ok && e != nil && i < len(e.Args) && a.Sort == SIfc {
+			// a pointer handed over in an interface-typed parameter (json.Unmarshal(buf, &v))
+			if apt, isPtr := types.Unalias(f.typeOf(e.Args[i])).Underlying().(*types.Pointer); isPtr {
+				pt, ok, a = apt, true, ifaceRef(a)
+			}
+		}
+		if !ok || a.Sort != SInt {
+			continue
+		}
+		el := pt.Elem()
+		if _, isStruct := types.Unalias(el).Underlying().(*types.Struct); isStruct {
+			si := c.structInfo(el)
+			for idx := range si.Fields {
+				loc := LHeapField{ref: a, st: el, idx: idx}
+				f.store(st, loc, c.fresh("ext", si.Fields[idx].Sort))
+			}
+			continue
+		}
+		f.store(st, f.ptrLoc(a, el), c.fresh("ext", c.sortOf(el)))
+	}
 }
 
 // uninterpCall: results are uninterpreted functions of (callee identity, arguments).
